@@ -99,6 +99,34 @@ def _rebinding(arg):
     return out
 
 
+def _balanced_bs(arg):
+    """worker: BSgate(pi/4, phi) on (0, 1) against the same gate on (1, 0): pi/4 has no lattice value; whether the two are the same
+    gate depends on phi only (MC_Eq: SwapSymmetryIndependentOfTheta), so the abstract pair handed to TLC carries a lattice angle"""
+    import math
+    import warnings
+    warnings.filterwarnings("ignore")
+    import strawberryfields as sf
+    from strawberryfields import ops
+    from . import sfx
+    out = []
+    A = {"0": [[1, 1], [0, 1]], "pi/2": [[0, 1], [1, 1]], "a345": [[3, 5], [4, 5]], "pi": [[-1, 1], [0, 1]], "-pi/2": [[0, 1], [-1, 1]]}
+    a345 = [[3, 5], [4, 5]]
+    for theta in (math.pi / 4, 3 * math.pi / 4, -math.pi / 4):
+        for name, phi in A.items():
+            def mk(modes):
+                prog = sf.Program(2)
+                with prog.context as q:
+                    ops.BSgate(theta, sfx.to_float("angle", phi)) | (q[modes[0]], q[modes[1]])
+                return prog
+            p, q = mk((0, 1)), mk((1, 0))
+            r = [bool(p == q), bool(q == p), bool(p.equivalence(q)), bool(q.equivalence(p))]
+            pabs = [{"name": "BSgate", "p": [a345, phi], "modes": [0, 1], "dag": False}]
+            qabs = [{"name": "BSgate", "p": [a345, phi], "modes": [1, 0], "dag": False}]
+            out.append({"kind": "pair", "n": 2, "p": pabs, "q": qabs, "eqpq": r[0], "eqqp": r[1], "evpq": r[2], "evqp": r[3],
+                        "same": False, "perm": [], "e1": False, "e2": False, "balanced": "theta=%.4f phi=%s" % (theta, name)})
+    return out
+
+
 def diff_kind(p, q):
     if len(p) != len(q):
         short_, long_ = (p, q) if len(p) < len(q) else (q, p)
@@ -127,7 +155,7 @@ def c18(chk):
                        "a relation reported False is never an alarm (the relations are not required to be complete)"]
     plans = [(2, 2)] if tier == "quick" else [(2, 2), (3, 2)]
     for (n, L) in plans:
-        r = chk.tlc("MC_Eq", constants={"NMod": n, "Len0": L}, invariants=["EmitInv"])
+        r = chk.tlc("MC_Eq", constants={"NMod": n, "Len0": L}, invariants=["EmitInv"] + (["SwapSymmetryIndependentOfTheta"] if n == 2 else []))
         pool = [it["circ"] for it in r.json]
         rows = list(range(len(pool)))
         rnd.shuffle(rows)
@@ -152,6 +180,8 @@ def c18(chk):
             cases += lst
         if n == 2:
             for lst in common.pmap(_rebinding, [0], chunksize=1):
+                cases += lst
+            for lst in common.pmap(_balanced_bs, [0], chunksize=1):
                 cases += lst
         chk.evaluations += tot["pairs"]
         verdicts = tracecases.validate(chk, "TraceEq", cases, "eq%d" % n, chunk=5000,
